@@ -134,3 +134,246 @@ Proof.
   - mqa_all.
   - intros Q; injp Q. apply mqa_same. cbn [mainq set_tr]. apply C04A.mainq_class_flags.
 Qed.
+
+(* ------------------------------------------------------------------ *)
+(** * Calls enter the main queue only from an act or a Ret invocation *)
+
+Definition notcall (c : citem) : Prop := ~ callk c.
+
+Definition mqc (s s' : st) : Prop := forall c, In c (mainq s') -> In c (mainq s) \/ notcall c.
+
+Lemma mqc_refl s : mqc s s. Proof. intros c H; auto. Qed.
+Lemma mqc_trans s1 s2 s3 : mqc s1 s2 -> mqc s2 s3 -> mqc s1 s3.
+Proof. intros A B c H. destruct (B c H) as [H2|N]; auto. Qed.
+Lemma mqc_same s s' : mainq s' = mainq s -> mqc s s'.
+Proof. intros E c H. rewrite E in H. auto. Qed.
+Lemma mqc_push s c : notcall c -> mqc s (push_main s c).
+Proof. intros N d H. unfold push_main in H. cbn [mainq set_mainq] in H. apply in_app_or in H as [H|[<-|[]]]; auto. Qed.
+Lemma notcall_setq c q : notcall c -> notcall (ci_setq c q).
+Proof. intros N H. apply N. destruct c; exact H. Qed.
+Lemma mqc_submit s q c : notcall c -> mqc s (submit s q c).
+Proof.
+  intros N. unfold submit. destruct q; try (apply mqc_same; reflexivity).
+  intros d H. unfold push_main in H. cbn [mainq set_mainq] in H. apply in_app_or in H as [H|[<-|[]]]; [left; exact H | right; apply notcall_setq; exact N].
+Qed.
+Lemma mqc_nil s s' : mainq s' = [] -> mqc s s'.
+Proof. intros E c H. rewrite E in H. destruct H. Qed.
+Lemma mqc_tok_script script : forall s0 s, mqc s0 s -> mqc s0 (tok_script s script).
+Proof.
+  unfold tok_script. induction script as [|c r IH]; intros s0 s H; [exact H|]. cbn [fold_left].
+  destruct (inst_env c KPlain s) as [ci s1] eqn:I. apply IH.
+  apply (mqc_trans _ s1).
+  - apply (mqc_trans _ s); [exact H|]. apply mqc_same.
+    unfold inst_env in I. destruct (take_env_caps (clo_caps c) s) as [caps s2] eqn:T. inversion I; subst.
+    rewrite mainq_emit, mainq_set_nuid. eapply mainq_take_env_caps; eauto.
+  - apply mqc_submit. unfold inst_env in I. destruct (take_env_caps (clo_caps c) s) as [caps s2]. inversion I; subst.
+    intros H0. exact H0.
+Qed.
+
+Ltac nc_tac := first [ (intros HH; exact HH) | (unfold notcall, callk; simpl; tauto) ].
+
+Ltac mqc_tac :=
+  repeat first
+    [ match goal with |- mqc ?x ?y => constr_eq x y; apply mqc_refl end
+    | match goal with C : mqc ?x ?y |- mqc ?x2 ?y2 => constr_eq x x2; constr_eq y y2; exact C end
+    | match goal with
+      | |- mqc _ (emit ?s _) => apply (mqc_trans _ s); [ | apply mqc_same; apply mainq_emit ]
+      | |- mqc _ (push_main ?s _) => apply (mqc_trans _ s); [ | apply mqc_push; nc_tac ]
+      | |- mqc _ (submit ?s _ _) => apply (mqc_trans _ s); [ | apply mqc_submit; nc_tac ]
+      | |- mqc _ (push_frame ?s _ _) => apply (mqc_trans _ s); [ | apply mqc_same; apply mainq_push_frame ]
+      | |- mqc _ (timer_add ?s _ _ _ _) => apply (mqc_trans _ s); [ | apply mqc_same; apply mainq_timer_add ]
+      | |- mqc _ (target_ev ?s _) => apply (mqc_trans _ s); [ | apply mqc_same; apply mainq_target_ev ]
+      | |- mqc _ (log_rec ?s _ _ _ _) => apply (mqc_trans _ s); [ | apply mqc_same; apply mainq_log_rec ]
+      | |- mqc _ (ref_clone ?s _) => apply (mqc_trans _ s); [ | apply mqc_same; apply mainq_ref_clone ]
+      | |- mqc _ (new_actor ?s _ _ _ _) => apply (mqc_trans _ s); [ | apply mqc_same; apply mainq_new_actor ]
+      | |- mqc _ (upd_actor ?s _ _) => apply (mqc_trans _ s); [ | apply mqc_same; apply mainq_upd_actor ]
+      | |- mqc _ (tok_script ?s _) => apply mqc_tok_script
+      | |- mqc _ (set_mainq _ []) => apply mqc_nil; reflexivity
+      | |- mqc _ (set_alive ?s _) => apply (mqc_trans _ s); [ | apply mqc_same; apply mainq_set_alive ]
+      | |- mqc _ (set_now ?s _) => apply (mqc_trans _ s); [ | apply mqc_same; apply mainq_set_now ]
+      | |- mqc _ (set_start ?s _) => apply (mqc_trans _ s); [ | apply mqc_same; apply mainq_set_start ]
+      | |- mqc _ (set_lazyq ?s _) => apply (mqc_trans _ s); [ | apply mqc_same; apply mainq_set_lazyq ]
+      | |- mqc _ (set_idleq ?s _) => apply (mqc_trans _ s); [ | apply mqc_same; apply mainq_set_idleq ]
+      | |- mqc _ (set_timers ?s _) => apply (mqc_trans _ s); [ | apply mqc_same; apply mainq_set_timers ]
+      | |- mqc _ (set_tnext ?s _) => apply (mqc_trans _ s); [ | apply mqc_same; apply mainq_set_tnext ]
+      | |- mqc _ (set_tvars ?s _) => apply (mqc_trans _ s); [ | apply mqc_same; apply mainq_set_tvars ]
+      | |- mqc _ (set_recreate ?s _) => apply (mqc_trans _ s); [ | apply mqc_same; apply mainq_set_recreate ]
+      | |- mqc _ (set_fwds ?s _) => apply (mqc_trans _ s); [ | apply mqc_same; apply mainq_set_fwds ]
+      | |- mqc _ (set_env ?s _) => apply (mqc_trans _ s); [ | apply mqc_same; apply mainq_set_env ]
+      | |- mqc _ (set_frames ?s _) => apply (mqc_trans _ s); [ | apply mqc_same; apply mainq_set_frames ]
+      | |- mqc _ (set_nuid ?s _) => apply (mqc_trans _ s); [ | apply mqc_same; apply mainq_set_nuid ]
+      | |- mqc _ (set_logseq ?s _) => apply (mqc_trans _ s); [ | apply mqc_same; apply mainq_set_logseq ]
+      | |- mqc _ (set_logfilter ?s _) => apply (mqc_trans _ s); [ | apply mqc_same; apply mainq_set_logfilter ]
+      | |- mqc _ (set_haslogger ?s _) => apply (mqc_trans _ s); [ | apply mqc_same; apply mainq_set_haslogger ]
+      | |- mqc _ (set_shut ?s _) => apply (mqc_trans _ s); [ | apply mqc_same; apply mainq_set_shut ]
+      | |- mqc _ (set_tr ?s _) => apply (mqc_trans _ s); [ | apply mqc_same; apply mainq_set_tr ]
+      | |- mqc _ (if ?b then _ else _) => destruct b
+      | |- mqc _ (match ?b with Some _ => _ | None => _ end) => destruct b
+      | |- mqc _ ?s' =>
+          match goal with
+          | E : take ?s _ = (_, s') |- _ => apply (mqc_trans _ s); [ | apply mqc_same; apply (mainq_take _ _ _ _ E) ]
+          | E : take_caps _ ?s = (_, s') |- _ => apply (mqc_trans _ s); [ | apply mqc_same; apply (mainq_take_caps _ _ _ _ E) ]
+          | E : bind ?s _ _ = (_, s') |- _ => apply (mqc_trans _ s); [ | apply mqc_same; apply (mainq_bind _ _ _ _ _ E) ]
+          | E : bad ?s _ = (_, s') |- _ => apply (mqc_trans _ s); [ | apply mqc_same; apply (mainq_bad _ _ _ _ E) ]
+          | E : inst _ _ ?s = (_, s') |- _ => apply (mqc_trans _ s); [ | apply mqc_same; apply (mainq_inst _ _ _ _ _ E) ]
+          | E : inst_call _ _ ?s = (_, s') |- _ => apply (mqc_trans _ s); [ | apply mqc_same; apply (mainq_inst_call _ _ _ _ _ E) ]
+          | E : inst_nocaps _ _ ?s = (_, s') |- _ => apply (mqc_trans _ s); [ | apply mqc_same; apply (mainq_inst_nocaps _ _ _ _ _ E) ]
+          | E : mk_notifier ?s _ _ = (_, s') |- _ => apply (mqc_trans _ s); [ | apply mqc_same; apply (mainq_mk_notifier _ _ _ _ _ E) ]
+          end
+      end ].
+
+
+Ltac mqc_all := solve [intros Q; try injp Q; mqc_tac].
+
+Lemma handle_mqc m s pre s' :
+  (forall l, m <> MActs l) -> (forall r mm, m <> MRetInvoke r mm) -> handle m s = (pre, s') -> mqc s s'.
+Proof.
+  intros NA NR. destruct m; cbn [handle].
+  - unfold do_top. destruct o; repeat dest_match; mqc_all.
+  - exfalso. eapply NA; reflexivity.
+  - destruct (frames s) as [|fr rest]; mqc_all.
+  - destruct (frames s) as [|fr rest]; mqc_all.
+  - unfold run_item. destruct c as [u i kd caps q]. destruct kd; repeat dest_match; mqc_all.
+  - unfold drop_item. destruct c as [u i kd caps q]. destruct kd; mqc_all.
+  - mqc_all.
+  - unfold drop_val. destruct v; repeat dest_match; mqc_all.
+  - unfold drop_own. repeat dest_match; mqc_all.
+  - unfold drop_ref. destruct (aget (actors s) a) as [y|] eqn:A; [|mqc_all].
+    destruct (a_freed y); [mqc_all|]. destruct (minrc_drop (a_rc y)) as [[v z]|]; [|mqc_all].
+    destruct z; [|mqc_all].
+    destruct (state_drops a (a_state y) _) as [dl s2] eqn:SD. intros Q; injp Q.
+    destruct (state_drops_h (HO 0) _ _ _ _ _ SD) as [-> _]. mqc_tac.
+  - exfalso. eapply NR; reflexivity.
+  - mqc_all.
+  - mqc_all.
+  - mqc_all.
+  - mqc_all.
+  - unfold terminate. destruct (aget (actors s) a) as [y|] eqn:A; [|mqc_all].
+    destruct (state_drops a (a_state y) _) as [dl s1] eqn:SD.
+    destruct (state_drops_h (HO 0) _ _ _ _ _ SD) as [-> _].
+    destruct (a_notify y); intros Q; injp Q; mqc_tac.
+  - destruct (aget (actors s) a); mqc_all.
+  - destruct (aget (actors s) a) as [y|] eqn:A; [|mqc_all]. destruct (a_state y); mqc_all.
+  - unfold fresh_stakker. mqc_all.
+  - destruct idle; [destruct (idleq s)|]; mqc_all.
+  - destruct (t >? now (set_mainq s [])).
+    + destruct (fire t (set_now (set_mainq s []) t)) as [fired s2] eqn:FI. unfold fire in FI. injection FI as ? ?; subst.
+      mqc_all.
+    + mqc_all.
+  - repeat dest_match; mqc_all.
+  - repeat dest_match; mqc_all.
+  - cbv zeta. mqc_all.
+  - repeat dest_match; mqc_all.
+  - repeat dest_match; mqc_all.
+  - mqc_all.
+  - intros Q; injp Q. apply mqc_same. cbn [mainq set_tr]. apply C04A.mainq_class_flags.
+Qed.
+
+(* ------------------------------------------------------------------ *)
+(** * Held queues are left alone by acts and Ret invocations *)
+
+Lemma held_a_same s s' a : actors s' = actors s -> held_a s' a = held_a s a.
+Proof. unfold held_a. intros ->. reflexivity. Qed.
+
+Lemma keff_held s s' : keff s s' -> forall a, held_a s' a = held_a s a.
+Proof.
+  intros E. induction E; intros b; auto.
+  - rewrite <- IHE. apply held_a_same. reflexivity.
+  - rewrite <- IHE. apply held_a_same. apply H.
+  - rewrite <- IHE. destruct H0 as (HH & _). eapply held_a_aset_same; eauto.
+  - rewrite <- IHE. unfold held_a. destruct (N.eq_dec a b) as [<-|NE].
+    + destruct (new_actor_get s1 a nt parent vis) as (y & A & S & _). rewrite A, H. unfold held_of. rewrite S. reflexivity.
+    + rewrite new_actor_other by auto. reflexivity.
+  - rewrite <- IHE. apply held_a_same. unfold submit. reflexivity.
+  - rewrite <- IHE. apply held_a_same. unfold submit. destruct q; reflexivity.
+  - rewrite <- IHE. apply held_a_same. reflexivity.
+  - rewrite <- IHE. apply held_a_same. reflexivity.
+Qed.
+
+Lemma opres_held s s' a : opres s s' -> held_a s' a = held_a s a.
+Proof.
+  intros P. unfold held_a. specialize (P a). destruct (aget (actors s) a) as [y|].
+  - destruct P as (y' & A' & (_ & S & _)). rewrite A'. unfold held_of. rewrite S. reflexivity.
+  - rewrite P. reflexivity.
+Qed.
+
+Lemma ret_invoke_held r mm s pre s' a : ret_invoke r mm s = (pre, s') -> held_a s' a = held_a s a.
+Proof.
+  unfold ret_invoke. destruct r as [rid k]. destruct k as [caps bd|p ci|p ci|p inner|p key inner].
+  - intros Q; injp Q. apply held_a_same. reflexivity.
+  - intros Q; injp Q. apply held_a_same. unfold submit. reflexivity.
+  - destruct mm; intros Q; injp Q; apply held_a_same; unfold submit; reflexivity.
+  - destruct inner as [[p0 ci]|]; intros Q; injp Q; apply held_a_same; unfold submit; reflexivity.
+  - destruct mm; intros Q; injp Q; [|reflexivity].
+    rewrite (held_a_same (ref_clone s p) _ a) by reflexivity. apply opres_held. apply opres_ref_clone.
+Qed.
+
+Lemma drop_own_add a lg s pre s' : drop_own a lg s = (pre, s') ->
+  mainq s' = mainq s \/ mainq s' = mainq s ++ [CI 0 0 (KTerm a) [] None].
+Proof.
+  unfold drop_own. repeat dest_match; intros Q; injp Q;
+    unfold push_main; cbn [mainq set_mainq]; rewrite ?mainq_ref_clone, ?mainq_upd_actor, ?mainq_emit; auto.
+Qed.
+
+(* ------------------------------------------------------------------ *)
+(** * The snapshot taken when the last visible owner goes *)
+
+Lemma upd04_snap s e : o_snap (upd04 s e) =
+  match e with
+  | EOwnDrop a => if (cnt_of s a - 1 =? 0) && negb (nmem a (o_slabkid s)) then nset (o_snap s) a (lst_of (o_pend s) a) else o_snap s
+  | _ => o_snap s
+  end.
+Proof. destruct e; try reflexivity; cbn [upd04]; dmatch. Qed.
+
+Lemma snap_neutral evs t : forallb pbB evs = true -> o_snap (st04 (evs ++ t)) = o_snap (st04 t).
+Proof.
+  induction evs as [|e evs IH]; intros F; [reflexivity|]. simpl in F. apply andb_prop in F as [F1 F2].
+  cbn [app st04]. rewrite upd04_snap, IH by auto. destruct e; try reflexivity. discriminate F1.
+Qed.
+
+Lemma nremove_keep u v l : In v l -> v <> u -> In v (nremove u l).
+Proof.
+  induction l as [|y l IH]; simpl; auto. intros [->|H] NE.
+  - destruct (N.eqb u v) eqn:E; [apply N.eqb_eq in E; congruence | left; reflexivity].
+  - destruct (N.eqb u y); [exact H | right; auto].
+Qed.
+
+Lemma conT_pos_app x evs t : 0 < conT x t -> 0 < conT x (evs ++ t).
+Proof. intros H. rewrite conT_app. pose proof (conT_nn x evs). lia. Qed.
+
+Lemma snap_pend_or_done t : forall a u, In u (lst_of (o_snap (st04 t)) a) ->
+  In u (lst_of (o_pend (st04 t)) a) \/ 0 < conT (RClo u) t.
+Proof.
+  induction t as [|e r IH]; intros a u H; [destruct H|].
+  cbn [st04] in *. rewrite upd04_snap in H. rewrite upd04_pend.
+  assert (MONO : 0 < conT (RClo u) r -> 0 < conT (RClo u) (e :: r)).
+  { intros P. change (e :: r) with ([e] ++ r). apply conT_pos_app. exact P. }
+  assert (KEEP : In u (lst_of (o_snap (st04 r)) a) ->
+                 (forall l, In u l -> In u (lst_of (o_pend (st04 r)) a) -> True) ->
+                 In u (lst_of (o_pend (st04 r)) a) \/ 0 < conT (RClo u) r) by (intros X _; apply IH; exact X).
+  destruct e; try (destruct (IH a u H) as [P|P]; [left; exact P | right; apply MONO; exact P]).
+  - (* ESub *)
+    destruct (IH a u H) as [P|P]; [|right; apply MONO; exact P]. left.
+    destruct q; try exact P. destruct (nget (o_tgt (st04 r)) uid) as [b|]; [|exact P].
+    rewrite lst_nset. destruct (N.eqb b a) eqn:Q; [apply N.eqb_eq in Q; subst; apply in_or_app; left; exact P | exact P].
+  - (* EMeth *)
+    destruct (IH a u H) as [P|P]; [|right; apply MONO; exact P].
+    destruct (nget (o_tgt (st04 r)) uid) as [b|]; [|left; exact P].
+    destruct (N.eq_dec u uid) as [->|NE].
+    + right. cbn [conT con1]. rewrite ind_refl. pose proof (conT_nn (RClo uid) r). lia.
+    + left. rewrite lst_nset. destruct (N.eqb b a) eqn:Q; [apply N.eqb_eq in Q; subst; apply nremove_keep; auto | exact P].
+  - (* EDrop *)
+    destruct (IH a u H) as [P|P]; [|right; apply MONO; exact P].
+    destruct (nget (o_tgt (st04 r)) uid) as [b|]; [|left; exact P].
+    destruct (N.eq_dec u uid) as [->|NE].
+    + right. cbn [conT con1]. rewrite ind_refl. pose proof (conT_nn (RClo uid) r). lia.
+    + left. rewrite lst_nset. destruct (N.eqb b a) eqn:Q; [apply N.eqb_eq in Q; subst; apply nremove_keep; auto | exact P].
+  - (* EOwnDrop *)
+    destruct ((cnt_of (st04 r) a0 - 1 =? 0) && negb (nmem a0 (o_slabkid (st04 r)))).
+    + rewrite lst_nset in H. destruct (N.eq_dec a a0) as [->|NE].
+      * rewrite N.eqb_refl in H. left. exact H.
+      * assert (Q1 : N.eqb a a0 = false) by (apply N.eqb_neq; exact NE).
+        assert (Q2 : N.eqb a0 a = false) by (apply N.eqb_neq; intros X; apply NE; symmetry; exact X).
+        rewrite ?Q1, ?Q2 in H. destruct (IH a u H) as [P|P]; [left; exact P | right; apply MONO; exact P].
+    + destruct (IH a u H) as [P|P]; [left; exact P | right; apply MONO; exact P].
+Qed.
